@@ -2,6 +2,7 @@ package main
 
 import (
 	"fmt"
+	"strings"
 
 	pbsubstreamsrpc "github.com/streamingfast/substreams/pb/sf/substreams/rpc/v2"
 
@@ -55,10 +56,24 @@ func generate(o *common.Opts) {
 		scale = 10
 	}
 
+	// 0. corpus: minimal witnesses of the defects found by this check (so that a replay file holds the
+	// minimal case) and of the three defects fixed before it (F10-F12), plus the 17e1a4e4 regression
+	for _, l := range corpus {
+		if strings.HasPrefix(l, "T2 ") {
+			runT2Line(l, []string{"corpus"})
+		} else {
+			runLine(l, []string{"corpus"})
+		}
+	}
+
 	// 1. well-formed requests
 	for n := 0; n < 5000*scale; n++ {
 		cfg := genCfg(rng)
-		emit(genValid(rng, skeletonSize(rng), cfg), nil, "valid-skeleton")
+		c := genValid(rng, skeletonSize(rng), cfg)
+		emit(c, nil, "valid-skeleton")
+		if rng.Chance(1, 3) {
+			emitT2(rng, c, "valid-skeleton")
+		}
 	}
 
 	// 2. one to three seeded mutations of a well-formed request
@@ -85,6 +100,9 @@ func generate(o *common.Opts) {
 			tags = []string{"valid-skeleton"}
 		}
 		emit(c, nil, tags...)
+		if rng.Chance(1, 6) {
+			emitT2(rng, c, "mutated")
+		}
 	}
 
 	// 2b. every mutation alone on a fixed number of skeletons (so that each class is hit in every run)
@@ -129,6 +147,9 @@ func generate(o *common.Opts) {
 									start: 5, stop: 50, prod: cnt%2 == 0, cur: "-", bins: []wBin{{"wasm/rust-v1", 4}},
 									mods: []wModule{{name: "a", kind: ka, inputs: ia, filter: fa}, {name: "b", kind: kb, inputs: ib, filter: fb, init: uint64(cnt % 3)}}}
 								emit(c, nil, "exhaustive-2-modules")
+								if cnt%5 == 0 {
+									emitT2(rng, c, "exhaustive-2-modules")
+								}
 							}
 						}
 					}
@@ -174,4 +195,20 @@ func generate(o *common.Opts) {
 		c.bins = []wBin{{"wasm/rust-v1", 150_000_000}, {"wasm/rust-v1", 150_000_001}}
 		emit(c, nil, "code-size-above-300MB")
 	}
+}
+
+var corpus = []string{
+	// tier2: stage 1 of a graph that has the single stage 0 (index out of range in UsedModulesUpToStage)
+	"T2 bt=T fs=0 seg=10 segnum=0 stage=1 stopnum=0 mc=1 ss=1 mbs=1 out=a bins=wasm%2Frust%2Dv1~0 M=a,m,0,0,-,rT",
+	"T2 bt=T fs=0 seg=10 segnum=0 stage=0 stopnum=0 mc=1 ss=1 mbs=1 out=a bins=wasm%2Frust%2Dv1~0 M=a,m,0,0,-,rT",
+	// F10: a module without kind; F12: an input without type; F11: binary index out of range
+	"REQ bt=T fs=0 seg=10 fin=100 head=200 rc=n out=c start=5 stop=50 prod=1 cur=- dbg=- bins=wasm%2Frust%2Dv1~3 M=a,-,0,0,-,rT|c,m,0,0,-,ma",
+	"REQ bt=T fs=0 seg=10 fin=100 head=200 rc=n out=c start=5 stop=50 prod=1 cur=- dbg=- bins=wasm%2Frust%2Dv1~3 M=c,m,0,0,-,n",
+	"REQ bt=T fs=0 seg=10 fin=100 head=200 rc=n out=c start=5 stop=50 prod=1 cur=- dbg=- bins=wasm%2Frust%2Dv1~3 M=c,m,7,0,-,rT",
+	// a params value spelled like the module's own name is not a cycle (fix 17e1a4e4)
+	"REQ bt=T fs=0 seg=10 fin=100 head=200 rc=n out=c start=5 stop=50 prod=1 cur=- dbg=- bins=wasm%2Frust%2Dv1~3 M=c,m,0,0,-,pc/rT",
+	// the accepted request of Props/C17.lean
+	"REQ bt=T fs=0 seg=10 fin=100 head=200 rc=n out=c start=5 stop=50 prod=1 cur=- dbg=- bins=wasm%2Frust%2Dv1~3 M=a,m,0,0,-,rT|s,s,0,3,-,ma|c,m,0,0,-,t1~s/ma",
+	// segment size 0 (server flag): divide by zero, excluded from the oracle
+	"REQ bt=T fs=0 seg=0 fin=100 head=200 rc=n out=c start=5 stop=50 prod=1 cur=- dbg=- bins=wasm%2Frust%2Dv1~3 M=c,m,0,0,-,rT",
 }
